@@ -27,6 +27,9 @@ pub struct Case {
     k: u16,
     /// how many of them (per cent) come from IPv6 sources
     v6_share: u8,
+    /// the IPv6 sources announce first (else the IPv4 ones)
+    #[serde(default)]
+    v6_first: bool,
     table_v4: u8,
     table_v6: u8,
     queries: Vec<Q>,
@@ -57,12 +60,12 @@ impl Stage for Sizes {
         (
             any::<bool>(),
             prop_oneof![2 => 0u16..30, 3 => 30u16..160, 2 => 160u16..=500, 1 => Just(500u16)],
-            prop_oneof![Just(0u8), Just(100u8), 0u8..=100],
+            (prop_oneof![Just(0u8), Just(100u8), 0u8..=100, 85u8..100, 1u8..15], any::<bool>()),
             prop_oneof![4 => 0u8..=16, 1 => 60u8..=110],
             prop_oneof![6 => 0u8..=8, 1 => 40u8..=70],
             vec(q, 3..14),
         )
-            .prop_map(|(node_v6, k, v6_share, table_v4, table_v6, queries)| Case { node_v6, k, v6_share, table_v4, table_v6, queries })
+            .prop_map(|(node_v6, k, (v6_share, v6_first), table_v4, table_v6, queries)| Case { node_v6, k, v6_share, v6_first, table_v4, table_v6, queries })
             .boxed()
     }
     fn run(&self, c: &Case) -> Outcome {
@@ -111,7 +114,8 @@ impl Stage for Sizes {
             let solo = super::single::Solo { net: net.clone(), node, node_id, dht: Some(dht), v6: c.node_v6 };
             // store k peers on one hash
             for i in 0..c.k {
-                let v6 = (i as u32 * 100 / c.k.max(1) as u32) < c.v6_share as u32;
+                let pos = i as u32 * 100 / c.k.max(1) as u32;
+                let v6 = if c.v6_first { pos < c.v6_share as u32 } else { pos >= 100 - c.v6_share as u32 };
                 let src = fam_addr(v6, 1000 + i, 5000);
                 let tok = match solo.get_peers(src, &HASH, KWant::Absent, b"t").await {
                     Ok(r) => r.token.unwrap_or_default(),
@@ -196,7 +200,7 @@ impl Stage for Sizes {
         if self.discipline {
             return "C17's worlds (one real serving node, 0..180 table nodes of both families, k in 0..500 peers announced on one info-hash from distinct v4/v6 sources) with C05's oracle: each of 3..13 queries of every kind (want absent/n4/n6/both, tid length 0..32, requester of either family) gets exactly one reply with the echoed tid and the node's id; get_peers replies carry a 20-byte token and only values of the requester's family; others no token/values; announce with a bad token is refused with 203. Non-trivial: k >= 100".into();
         }
-        "one real serving node (v4/v6) whose table holds 0..16 (20 %: 60..110) v4 and 0..8 (15 %: 40..70) v6 contacts, 8 per bucket; k in 0..500 peers announced on one info-hash from distinct v4/v6 sources with valid tokens; then 3..13 queries of every kind (want absent/n4/n6/both, tid length 0..32, requester of either family). Oracle: every datagram the node handed to the network is <= 1500 bytes and every reply decodes with the independent codec. Non-trivial: k >= 100 (reply is size-limited, not content-limited)".into()
+        "one real serving node (v4/v6) whose table holds 0..16 (20 %: 60..110) v4 and 0..8 (15 %: 40..70) v6 contacts, 8 per bucket; k in 0..500 peers announced on one info-hash from distinct v4/v6 sources (either family first) with valid tokens; then 3..13 queries of every kind (want absent/n4/n6/both, tid length 0..32, requester of either family). Oracle: every datagram the node handed to the network is <= 1500 bytes and every reply decodes with the independent codec. Non-trivial: k >= 100 (reply is size-limited, not content-limited)".into()
     }
 }
 
